@@ -42,7 +42,7 @@ ASSUMPTIONS = [
     "numerical-fallback force rows whose stencil crosses a "
     "boundary are not compared (counted)",
 ]
-REQUIRED = {"special:large_file": 2, "label:longer_than_field:reject": 4, "label:eight_characters": 3, "special:int_plateau": 4, "special:root_on_grid": 8, "special:decay_tail": 8, "special:growth": 4, "special:break_on_row": 8, "special:other_units": 10, "reject:four_rows": 2, "no_potentials:reject": 3, "accept": 60, "reject": 40, "reject:nr%4=2:api_class": 5, "reject:nr%4=2:writePotentials": 5,
+REQUIRED = {"grid_given_as:nr_dr": 4, "grid_given_as:cutoff_dr": 4, "special:large_file": 2, "label:longer_than_field:reject": 4, "label:eight_characters": 3, "special:int_plateau": 4, "special:root_on_grid": 8, "special:decay_tail": 8, "special:growth": 4, "special:break_on_row": 8, "special:other_units": 10, "reject:four_rows": 2, "no_potentials:reject": 3, "accept": 60, "reject": 40, "reject:nr%4=2:api_class": 5, "reject:nr%4=2:writePotentials": 5,
             "reject:nr%4=2:potable": 10, "route:potable:DL_POLY": 10, "route:potable:DLPOLY": 10,
             "route:api_class": 15, "route:writePotentials": 15}
 FMT = ("e", 7)
@@ -68,6 +68,13 @@ def _case(draw, nr_max, accept, route=None, rem=None):
             m["pair"] = []
     m.update({"cutoff": cutoff, "nr": nr, "route": route,
               "container": draw(st.sampled_from(["list", "list", "tuple", "iterator", "generator"]))})
+    if route.startswith(("potable", "main")) and draw(st.integers(0, 2)) == 0:
+        # the same grid given through the step: nr + dr, or cutoff + dr (cutoff = (nr-1)*dr); cutpot is that cutoff
+        # and delpot = cutoff/(nr-4) as for any other way of giving the grid
+        step = draw(st.sampled_from([0.01, 0.005, 0.02, 0.05, 0.125]))
+        m["cutoff"] = (nr - 1) * step
+        m["grid_spec"] = draw(st.sampled_from(["nr_dr", "cutoff_dr"]))
+        m["dr_given"] = repr(step)
     return m
 
 
@@ -161,6 +168,11 @@ def budget(tier):
 
 
 def _text(case, target):
+    spec = case.get("grid_spec")
+    if spec == "nr_dr":
+        return pairtab.potable_text(case, target, {"nr": case["nr"], "dr": case["dr_given"]})
+    if spec == "cutoff_dr":
+        return pairtab.potable_text(case, target, {"cutoff": case["cutoff"], "dr": case["dr_given"]})
     return pairtab.potable_text(case, target, {"cutoff": case["cutoff"], "nr": case["nr"]})
 
 
@@ -240,6 +252,8 @@ def check_case(case):
         cls.append("reject:four_rows")
     if case.get("special"):
         cls.append("special:" + case["special"])
+    if case.get("grid_spec"):
+        cls.append("grid_given_as:" + case["grid_spec"])
     if case.get("int_returns") and not case["route"].startswith(("potable", "main", "cli")):
         cls.append("callables_return_ints")
     if not accept:
